@@ -116,7 +116,25 @@ impl Monitor for Mon {
                 if let Some(n_close) = pr.n_spot {
                     let realised = pnl(pr.long, n_close, pr.notional);
                     let equity = pr.equity(&realised);
-                    if !equity.is_neg() {
+                    if equity.is_neg() && s.effect == Effect::Closed {
+                        // the rejection clause: a position that owes more than its margin cannot be closed for a payout
+                        return Some(
+                            Violation::new(
+                                "closed_with_negative_equity",
+                                format!(
+                                    "an opposite order closed the whole position although margin {} + pnl {} - funding {} = {} < 0 (wallet moved by {})",
+                                    pr.margin,
+                                    realised,
+                                    pr.funding,
+                                    equity,
+                                    S::pos(s.post.bal[*t]).sub(&S::pos(s.pre.bal[*t]))
+                                ),
+                            )
+                            .with("long", pr.long)
+                            .with("by", "opposite_order"),
+                        );
+                    }
+                    if !equity.is_neg() || s.effect == Effect::Reversed {
                         out.count("closed_by_opposite_order_checks");
                         let trader = &w.traders[*t];
                         let fees_paid: u128 = s.res.xfers.iter().filter(|x| &x.from == trader && (x.to == w.fund.as_str() || x.to == w.fee_pool.as_str())).map(|x| x.amount).sum();
